@@ -12,6 +12,8 @@ static inline uint64_t b64(double f) { uint64_t b; std::memcpy(&b, &f, 8); retur
 static inline int clampi(long e) { return e > INT_MAX ? INT_MAX : (e < INT_MIN ? INT_MIN : (int)e); }
 
 extern "C" {
+uint32_t ref32_fma(uint32_t a, uint32_t b, uint32_t c) { volatile float x = f32(a), y = f32(b), z = f32(c); volatile float r = std::fma((float)x, (float)y, (float)z); return b32(r); }
+uint64_t ref64_fma(uint64_t a, uint64_t b, uint64_t c) { volatile double x = f64(a), y = f64(b), z = f64(c); volatile double r = std::fma((double)x, (double)y, (double)z); return b64(r); }
 uint32_t ref32_bin(int op, uint32_t a, uint32_t b) {
     volatile float x = f32(a), y = f32(b); volatile float r;
     switch (op) {
